@@ -5,7 +5,7 @@ use crate::model::*;
 use crate::{ensure, lib};
 use hifitime::efmt::consts::ISO8601;
 use hifitime::efmt::Formatter;
-use hifitime::{Epoch, HifitimeError, ParsingError};
+use hifitime::{Epoch, HifitimeError};
 use proptest::prelude::*;
 use serde::{Deserialize, Serialize};
 use std::str::FromStr;
@@ -15,7 +15,7 @@ pub const RULE: &str = "generated epochs with calendar year 0001-9999 in nine sc
 pub const ASSUMPTIONS: &[&str] = &[
     "an offset shifts the instant by exactly hh:mm in the count of the named scale (UTC if none)",
     "numeric forms: SEC x S is x seconds after S's reference; MJD x / JD x in TAI and UTC are (x - 15020) / (x - 2415020.5) days after 1900-01-01 of that scale; tolerance 2 ulp(max(|x|, |c|)) in the unit plus 1 ns",
-    "JD/MJD in the GNSS scales and TT, JD in ET/TDB: not asserted (an explicit UnsupportedTimeSystem error is accepted; what 'MJD x GST' denotes is not documented)",
+    "JD/MJD in the GNSS scales and TT, JD in ET/TDB: not asserted (any error is accepted; what 'MJD x GST' denotes is not documented)",
 ];
 
 // ---------------------------------------------------------------- library text round trips
@@ -234,20 +234,18 @@ pub fn num_oracle(c: &Num) -> Verdict {
             if asserted {
                 return Verdict::Fail(format!("{:?} does not parse: {:?}", txt, err));
             }
-            // an explicit 'unsupported' answer is accepted for the combinations the statement does not cover
-            match err {
-                HifitimeError::Parse { source: ParsingError::UnsupportedTimeSystem, .. } => Verdict::Skip("combination reported as unsupported"),
-                other => Verdict::Fail(format!("{:?} fails with {:?} instead of a value or UnsupportedTimeSystem", txt, other)),
-            }
+            // any error is accepted for the combinations the statement does not cover
+            let _ = err;
+            Verdict::Skip("combination rejected (not covered by the statement)")
         }
     }
 }
 
 pub fn subs() -> Vec<Box<dyn DynSub>> {
     vec![
-        sub(Sub { name: "c10.library_text", source: Source::Gen(rt_strategy, 400_000, 15_000_000), oracle: rt_oracle, known: no_known, hang_is_violation: false }),
-        sub(Sub { name: "c10.grammar_text", source: Source::Gen(gram_strategy, 400_000, 15_000_000), oracle: gram_oracle, known: no_known, hang_is_violation: false }),
-        sub(Sub { name: "c10.numeric_forms", source: Source::Gen(num_strategy, 200_000, 5_000_000), oracle: num_oracle, known: no_known, hang_is_violation: false }),
+        sub(Sub { name: "c10.library_text", source: Source::Gen(rt_strategy, 1_600_000, 15_000_000), oracle: rt_oracle, known: no_known, hang_is_violation: false }),
+        sub(Sub { name: "c10.grammar_text", source: Source::Gen(gram_strategy, 1_600_000, 15_000_000), oracle: gram_oracle, known: no_known, hang_is_violation: false }),
+        sub(Sub { name: "c10.numeric_forms", source: Source::Gen(num_strategy, 800_000, 5_000_000), oracle: num_oracle, known: no_known, hang_is_violation: false }),
         crate::props::fuzzsub::c10_fuzz(),
     ]
 }
